@@ -56,6 +56,12 @@ pub fn generate(run_seed: u64, corpus: &Corpus, sw: &Swarm, i: u64, exhaustive: 
             Err(j) => j,
         };
         let exhaustive = exhaustive - nf;
+        // then the dedent cases
+        let dd = crate::gen::dedent_count();
+        if i < dd {
+            return Case { prop: "C10".into(), gen: "X-dedent".into(), text: crate::gen::nth_dedent(i), ..Case::default() };
+        }
+        let (i, exhaustive) = (i - dd, exhaustive - dd);
         let ctx = crate::gen::count_context_cases();
         if i < ctx {
             return Case { prop: "C10".into(), gen: "X-context-follower".into(), text: crate::gen::nth_context_case(i), ..Case::default() };
